@@ -22,6 +22,9 @@ build_vx() {
   rm -rf "$d/src" "$d/overlay.json"
   mkdir -p "$d"
   "$WORK/bin/xform" -repo "$REPO" -out "$d" -shims "$VERIF/engine/zzverif" -extra "$VERIF/engine/inpkg" 2> "$d/xform.log" || { cat "$d/xform.log"; echo "MACHINERY-ERROR: xform failed"; exit 2; }
+  if [ -n "${VERIF_EXCLUDE:-}" ]; then   # development aid: leave out check files that are being written
+    for f in $VERIF_EXCLUDE; do jq --arg k "$VERIF/engine/checks/$f" '.Replace[$k]=""' "$d/overlay.json" > "$d/overlay.tmp" && mv "$d/overlay.tmp" "$d/overlay.json"; done
+  fi
   sed "s#@REPO@#$REPO#" "$VERIF/engine/go.mod.tmpl" > "$d/go.mod"
   cp "$REPO/go.sum" "$d/go.sum"
   (cd "$VERIF/engine" && go build -modfile="$d/go.mod" -overlay "$d/overlay.json" -tags verif -o "$d/vx" ./cmd/vx) > "$d/build.log" 2>&1 || { cat "$d/build.log"; echo "MACHINERY-ERROR: build of instrumented gmqtt failed (does /repo still compile?)"; exit 2; }
